@@ -38,10 +38,10 @@ Check C07_selection_monotone : forall ss ops ops', incl ops ops' -> snd (reach s
 
 (* non-vacuity: Holder{t: map<Tgt>} Other{} Tgt{} Unused{}; one operation returning Holder *)
 Example C07_nonvacuous :
-  let Holder := SObj [SObj [] [] [] [] None (Some (SRef 2))] [] [] [] None None in
-  let Plain := SObj [] [] [] [] None None in
+  let Holder := SObj [SObj [] [] [] [] None (Some (SRef 2)) false] [] [] [] None None false in
+  let Plain := SObj [] [] [] [] None None false in
   reach [Holder; Plain; Plain; Plain] [[SRef 0]] = ([0; 2]%N, true)
-  /\ reach [Holder; Plain; Plain; Plain] [[SRef 0]; [SObj [] [] [] [] (Some (SRef 1)) None]] = ([0; 1; 2]%N, true).
+  /\ reach [Holder; Plain; Plain; Plain] [[SRef 0]; [SObj [] [] [] [] (Some (SRef 1)) None false]] = ([0; 1; 2]%N, true).
 Proof. vm_compute. split; reflexivity. Qed.
 
 Print Assumptions C07_closed.
